@@ -67,6 +67,21 @@ def check_parsed(text: str, model, target, mode: bool, res: core.CaseResult, har
 
 
 def run_case(case: dict) -> core.CaseResult:
+    lf = case.get('lf')
+    if lf is None:
+        return _run_case(case)
+    from .. import store
+    store.set_load_factor(lf)         # the same document in a store of 2-3-token blocks (sub-model ranges cross blocks)
+    try:
+        r = _run_case(case)
+        for i, (k, t, sub) in enumerate(r.violations):
+            r.violations[i] = (k, t, dict(sub if sub is not None else case, lf=lf))
+        return r
+    finally:
+        store.set_load_factor(None)
+
+
+def _run_case(case: dict) -> core.CaseResult:
     res = core.CaseResult()
     text = case['text']
     if 'target' in case:
@@ -108,7 +123,7 @@ def run_case(case: dict) -> core.CaseResult:
         if key in _SEEN_FRAGMENTS:
             continue
         _SEEN_FRAGMENTS.add(key)
-        sub = run_case({'text': slice_, 'target': rule})
+        sub = _run_case({'text': slice_, 'target': rule})
         res.transitions += sub.transitions
         res.states |= sub.states
         res.nontrivial |= sub.nontrivial
@@ -158,10 +173,10 @@ DIRECT = {
 def main(run: core.Run) -> None:
     tier = run.tier
     if tier == 'quick':
-        variants = (('lf', True), ('lf', False), ('crlf', True), ('mixed', False), ('crcrlf', True))
+        variants = (('lf', True), ('lf', False), ('crlf', True), ('mixed', False), ('crcrlf', True), ('crlf-cut', True))
         items = [{'text': t} for t in docs.texts(docs.L_FULL, 3, variants=variants)]
     else:
-        variants = (('lf', True), ('lf', False), ('crlf', True), ('crlf', False), ('mixed', True), ('crcrlf', False), ('crcrlf', True))
+        variants = (('lf', True), ('lf', False), ('crlf', True), ('crlf', False), ('mixed', True), ('crcrlf', False), ('crcrlf', True), ('crlf-cut', True))
         items = [{'text': t} for t in docs.texts(docs.L_FULL, 3, variants=variants)]
         items += [{'text': t} for t in docs.texts(docs.L_FULL, 4, nmin=4, variants=(('lf', True), ('mixed', False)))]
         items += [{'text': t} for t in docs.texts(docs.L_EDIT, 5, nmin=5, variants=(('lf', True),))]
@@ -172,6 +187,10 @@ def main(run: core.Run) -> None:
                        'eol_variants': [f'{e}{"+final" if f else ""}' for e, f in variants]})
     run.assumptions = ['texts are drawn from a fixed line alphabet (one representative per lexer character class)',
                        'a fragment target may leave trivia (blanks, line breaks, unowned comments) outside the returned model']
+    small = [dict(c, lf=lf) for lf in (2, 3) for c in ({'text': t} for t in docs.texts(docs.L_FULL, 2 if tier == 'quick' else 3, variants=(('lf', True), ('crlf', False))))]
+    small += [{'text': t + '\n', 'lf': 2} for t in docs.L_CLASSES]
+    items += small
+    run.bounds['small_load_factor'] = f'{len(small)} documents repeated at load factors 2 and 3'
     run.run_cases(run_case, items, 'documents', chunk=400)
     direct = [{'text': t, 'target': rule} for rule, ts in DIRECT.items() for t in ts]
     # every target on every direct layout as a smoke of the parse-target dimension
